@@ -49,7 +49,8 @@ OWN = {  # parameters of the driver's own executions; must match spec/SchedTrace
 
 def _tier(tier):
     if tier == "quick":
-        return dict(mc=[c % r for c in ("Sched_%s_quick.cfg", "Sched_%s_quick2.cfg") for r in ROLES],
+        return dict(mc=[c % r for c in ("Sched_%s_quick.cfg", "Sched_%s_quick2.cfg") for r in ROLES]
+                    + ["Sched_att_spe6.cfg", "Sched_sync_spe6.cfg"],
                     big={"Sched_att_quick.cfg": 2, "Sched_prop_quick.cfg": 2}, workers=1, par=6,
                     stop_after=150, leaves=200, extra_edges=100, sim=(40, 90), own_runs=40,
                     java="-Xmx2g -XX:ParallelGCThreads=2")
@@ -186,6 +187,15 @@ def run(tier, seed):
     t0 = time.time()
     T = _tier(tier)
     os.environ["_JAVA_OPTIONS"] = T["java"]   # every JVM of this check: small heap, few GC threads (shared machine)
+    # all TLC work of the tier goes through one pool (at most par JVMs at a time), longest jobs first
+    ex = concurrent.futures.ThreadPoolExecutor(max_workers=T["par"])
+    try:
+        return _run(tier, seed, T, ex, t0)
+    finally:
+        ex.shutdown(wait=False, cancel_futures=True)
+
+
+def _run(tier, seed, T, ex, t0):
     verdict = vlib.Verdict(PROP)
     cov = {"configs": [], "attack_traces": 0, "divergences": 0, "attack_configs_without_counterexample": []}
     drv = vlib.go_build("scheduler")
@@ -194,9 +204,6 @@ def run(tier, seed):
     rng = random.Random(seed)
     num, depth = T["sim"]
     cfgs = T["mc"]
-
-    # all TLC work of the tier goes through one pool (at most par JVMs at a time), longest jobs first
-    ex = concurrent.futures.ThreadPoolExecutor(max_workers=T["par"])
     f_mc = [ex.submit(_tlc, "MCScheduler", c, workers=T["big"].get(c, T["workers"]), timeout=T["stop_after"] + 600,
                       stop_after=T["stop_after"]) for c in cfgs]
     f_own = [ex.submit(_own, drv, wd, role, seed, T["own_runs"]) for role in ROLES]
@@ -300,7 +307,6 @@ def run(tier, seed):
         transitions += r.generated
         exhaustive = exhaustive and r.finished
         log("[C16] TLC %s: %d distinct / %d generated, finished=%s, %.1fs" % (c, r.distinct, r.generated, r.finished, r.wall))
-    ex.shutdown()
 
     rc = verdict.report()
     if cov["divergences"] and rc == 0:
